@@ -103,6 +103,22 @@ def probe_server(version: str | None) -> RpcServer:
     return _SERVERS[version]
 
 
+def unblock(transport: Any) -> None:
+    """End the OUTGOING direction of a transport without touching its reader: a thread may be blocked in that reader, and
+    closing a BufferedReader from another thread waits for the lock the blocked read holds (a deadlock of the harness itself).
+    The peer then reads EOF, leaves its loop and closes its own side, which in turn unblocks our reader."""
+    import socket
+
+    t = getattr(transport, "_pipe", transport)
+    sock = getattr(t, "_sock", None)
+    if sock is not None:
+        with contextlib.suppress(Exception):
+            sock.shutdown(socket.SHUT_RDWR)
+        return
+    with contextlib.suppress(Exception):
+        t._writer.close()
+
+
 class Probe:
     def __init__(self, kind: str = "pipe", version: str | None = None, shm: Any = None) -> None:
         """kind: pipe | unix | shm (pipe pair whose server side is a ShmPipeTransport over the segment `shm`)."""
@@ -171,6 +187,8 @@ class Probe:
         c.start()
         c.join(deadline)
         hung = c.is_alive()
+        live = out
+        out = dict(live)      # what was observed by the deadline (the client thread may still fill `live` once it is unblocked)
         if half_close and not hung:
             self.th.join(deadline)
         out["hung"] = hung
@@ -189,8 +207,13 @@ class Probe:
         return out
 
     def close(self) -> None:
-        with contextlib.suppress(Exception):
-            self.ct.close()
+        unblock(self.ct)
         self.th.join(3)
-        with contextlib.suppress(Exception):
-            self.st.close()
+        if self.th.is_alive():
+            unblock(self.st)
+            self.th.join(3)
+        if not self.th.is_alive():
+            with contextlib.suppress(Exception):
+                self.ct.close()
+            with contextlib.suppress(Exception):
+                self.st.close()
